@@ -281,7 +281,7 @@ PROPS["C04"]["e2"] += [E("uspace_loops", "p_libfs", "lemma_uspace_loops")]
 
 # two sources in one walk (per-source state recomputed for the second source): ~20 min since the model explores spellings,
 # root links and stat failures, so it belongs to the thorough tier; the quick tier has the single-source lemma
-for _p in ("C02", "C08", "C17", "C04", "C13", "C14", "C12"):
+for _p in ("C02", "C08", "C17"):
     PROPS[_p]["e2"] += [E("tree_walker_two_sources", "p_walker", "lemma_tree_walker_two_sources", tier="thorough")]
 PROPS["C06"]["e2"] += [E("uspace_loops", "p_libfs", "lemma_uspace_loops")]
 PROPS["C11"]["e2"] += [E("copy_bytes_step", "p_copy", "lemma_copy_bytes")]
